@@ -1073,8 +1073,8 @@ func (fg *FuncGen) loopHead(li *loopInfo, fwd []*ssa.BasicBlock, in string, rnam
 		if !assigned[f] && strings.HasPrefix(fg.g.families[f], "(Array Int") {
 			// objects that existed at function entry are not written (justified by the frame obligations)
 			fg.emit("(assert (forall ((r Int)) (! (=> (< r %s) (= (select %s r) (select %s!0 r))) :pattern ((select %s r)))))", fg.wm0, sym, f, sym)
-			if f == "Q_Val" {
-				fg.emit("(assert (forall ((s Slice) (i Int)) (! (=> (< (sref s) %s) (= (gat %s s i) (gat %s!0 s i))) :pattern ((gat %s s i)))))", fg.wm0, sym, f, sym)
+			if gf := fg.g.gatOfFamily(f); gf != "" {
+				fg.emit("(assert (forall ((s Slice) (i Int)) (! (=> (< (sref s) %s) (= (%s %s s i) (%s %s!0 s i))) :pattern ((%s %s s i)))))", fg.wm0, gf, sym, gf, f, gf, sym)
 			}
 		}
 	}
@@ -1449,6 +1449,7 @@ func (fg *FuncGen) flushHeaps() {
 // keeps ghost arrays indexed by the iteration number holding the call's results, so that loop
 // invariants and postconditions can speak about "the k-th result" (names log<N>, log<N>e).
 type logInfo struct {
+	scalar bool
 	n     int
 	call  *ssa.Call
 	li    *loopInfo
@@ -1458,7 +1459,7 @@ type logInfo struct {
 
 func (fg *FuncGen) findLogCalls() {
 	fg.logCalls = map[*ssa.Call]*logInfo{}
-	var calls []*ssa.Call
+	var calls, scalars []*ssa.Call
 	for _, b := range fg.fn.Blocks {
 		for _, in := range b.Instrs {
 			c, ok := in.(*ssa.Call)
@@ -1479,6 +1480,17 @@ func (fg *FuncGen) findLogCalls() {
 				}
 			}
 			if best == nil {
+				// not inside a range loop: a scalar log (names call<N>, call<N>e), but only outside any loop
+				inLoop := false
+				for _, li := range fg.loops {
+					if li.blocks[b] {
+						inLoop = true
+					}
+				}
+				if !inLoop {
+					fg.logCalls[c] = &logInfo{call: c}
+					scalars = append(scalars, c)
+				}
 				continue
 			}
 			// only when that loop is the innermost loop around the call
@@ -1508,6 +1520,20 @@ func (fg *FuncGen) findLogCalls() {
 		}
 		fg.logList = append(fg.logList, l)
 	}
+	sort.Slice(scalars, func(i, j int) bool { return scalars[i].Pos() < scalars[j].Pos() })
+	for i, c := range scalars {
+		l := fg.logCalls[c]
+		l.n = i + 1
+		l.scalar = true
+		res := c.Common().Signature().Results()
+		for k := 0; k < res.Len(); k++ {
+			srt := fg.g.SortOf(res.At(k).Type())
+			fam := fg.g.Family(fmt.Sprintf("LOG_%s_c%d_%d", smtIdent(shortKey(fg.key)), l.n, k), srt)
+			l.fams = append(l.fams, fam)
+			l.sorts = append(l.sorts, srt)
+		}
+		fg.logList = append(fg.logList, l)
+	}
 }
 
 func (fg *FuncGen) logRangeIndex(li *loopInfo) string {
@@ -1526,6 +1552,14 @@ func (fg *FuncGen) recordLog(c *ssa.Call, rs []TTerm) {
 	if l == nil {
 		return
 	}
+	if l.scalar {
+		for k, f := range l.fams {
+			if k < len(rs) {
+				fg.setFam(f, rs[k].S)
+			}
+		}
+		return
+	}
 	idx := fg.logRangeIndex(l.li)
 	for k, f := range l.fams {
 		if k < len(rs) {
@@ -1536,6 +1570,11 @@ func (fg *FuncGen) recordLog(c *ssa.Call, rs []TTerm) {
 
 // logName resolves log<N> / log<N>e against a state.
 func (fg *FuncGen) logName(name string, st State) (TTerm, bool) {
+	scalar := false
+	if strings.HasPrefix(name, "call") {
+		scalar = true
+		name = "log" + name[4:]
+	}
 	if !strings.HasPrefix(name, "log") {
 		return TTerm{}, false
 	}
@@ -1550,7 +1589,10 @@ func (fg *FuncGen) logName(name string, st State) (TTerm, bool) {
 		return TTerm{}, false
 	}
 	for _, l := range fg.logList {
-		if l.n == n && k < len(l.fams) {
+		if l.n == n && l.scalar == scalar && k < len(l.fams) {
+			if scalar {
+				return TTerm{S: fg.famIn(st, l.fams[k]), Sort: l.sorts[k]}, true
+			}
 			return TTerm{S: fg.famIn(st, l.fams[k]), Sort: "(Array Int " + l.sorts[k] + ")"}, true
 		}
 	}
